@@ -315,14 +315,10 @@ fn body(ch: &Chooser, env: &Env, streams: &[usize]) -> Outcome {
                 detail,
             );
             let q = run_queries(ch, env, &path, &repo, &header, idx, false, multi, &scan, recs, &describe);
-            // a query failure through the walker index is the more specific finding when both exist,
-            // but both are genuine; report the index failure unless the query also failed
+            // both halves are genuine findings; one execution reports one violation: the query
+            // failure when there is one (more specific), the index failure otherwise
             return match q {
-                Err(qv) => {
-                    // prefer a deterministic choice: the index failure is always present for this
-                    // layout, the query failure is the additional information
-                    if std::env::var_os("C19_PREFER_INDEX").is_some() { Err(v) } else { Err(qv) }
-                }
+                Err(qv) => Err(qv),
                 Ok(()) => Err(v),
             };
         }
